@@ -64,9 +64,11 @@ Finish8 == /\ Mode = "C08" /\ out = <<>> /\ hist # <<>>
 
 \* C09: kinds for requests 0,4,..; the GOAWAY position g (after g requests); pokes after everything, in id order or reversed;
 \* burst: the released requests all run to their end before accept() is polled again (several ends between two polls)
-Scn9(n, ks, g, rev, burst) ==
+\* arrive: the order in which the request streams become visible (a transport need not surface them in id order);
+\* cut: the peer's GOAWAY frame 07 01 00 arrives whole (0) or in two deliveries cut after `cut` bytes, the endpoint running in between
+Scn9x(n, ks, g, rev, burst, arrive, cut) ==
                 LET ids == [i \in 1..n |-> 4 * (i - 1)]
-                    arr == [i \in 1..n |-> PeerSteps(ks[i], ids[i])]
+                    arr == [i \in 1..n |-> PeerSteps(ks[arrive[i]], ids[arrive[i]])]
                     before == Flat([i \in 1..n |-> IF i <= g THEN arr[i] ELSE <<>>])
                     after == Flat([i \in 1..n |-> IF i > g THEN arr[i] ELSE <<>>])
                     pk == { i \in 1..n : NeedsPoke(ks[i]) }
@@ -76,17 +78,26 @@ Scn9(n, ks, g, rev, burst) ==
                                   \o Flat([j \in 1..n |-> IF order[j] \in pk THEN <<[op |-> "step", task |-> PokeTask(ks[order[j]], ids[order[j]]), no_run |-> TRUE]>> ELSE <<>>])
                                   \o <<[op |-> "run"]>>
                              ELSE Flat([j \in 1..n |-> IF order[j] \in pk THEN <<[op |-> "poke", task |-> PokeTask(ks[order[j]], ids[order[j]])]>> ELSE <<>>])
+                    ga == IF cut = 0 THEN <<Goaway>>
+                          ELSE <<[op |-> "deliver", sid |-> 2, bytes |-> SubSeq(<<7, 1, 0>>, 1, cut)], [op |-> "deliver", sid |-> 2, bytes |-> SubSeq(<<7, 1, 0>>, cut + 1, 3)]>>
                     \* g = n + 1: the GOAWAY arrives after the held requests were released
-                    steps == IF g = n + 1 THEN Ctl \o before \o pokes \o <<Goaway>>
-                             ELSE Ctl \o before \o <<Goaway>> \o after \o pokes
-                IN [role |-> "server", cfg |-> [grease |-> FALSE], mode |-> "C09", kinds |-> ks, goaway_after |-> g, burst |-> burst,
-                    handlers |-> [i \in 1..n |-> Handler(ks[i])], default_handler |-> Normal, steps |-> steps]
+                    steps == IF g = n + 1 THEN Ctl \o before \o pokes \o ga
+                             ELSE Ctl \o before \o ga \o after \o pokes
+                IN [role |-> "server", cfg |-> [grease |-> FALSE], mode |-> "C09", kinds |-> ks, goaway_after |-> g, burst |-> burst, arrive |-> arrive, cut |-> cut,
+                    handlers_by_sid |-> [i \in 1..n |-> Handler(ks[i])], default_handler |-> Normal, steps |-> steps]
+Scn9(n, ks, g, rev, burst) == Scn9x(n, ks, g, rev, burst, [i \in 1..n |-> i], 0)
 PokeKinds == {"held", "heldres", "split"}
 Finish9 == /\ Mode = "C09" /\ out = <<>>
            /\ \/ \E n \in 0..NReq9 : \E ks \in [1..n -> Kinds], g \in 0..(n + 1), rev \in BOOLEAN, burst \in BOOLEAN :
                    LET pk == { i \in 1..n : NeedsPoke(ks[i]) } IN
                    /\ (rev => Cardinality(pk) >= 2) /\ (burst => Cardinality(pk) >= 2)
                    /\ out' = Scn9(n, ks, g, rev, burst)
+              \* request streams surfacing out of id order (reversed), with the GOAWAY at every position
+              \/ \E n \in 2..NReq9 : \E ks \in [1..n -> Kinds], g \in 0..(n + 1) :
+                   out' = Scn9x(n, ks, g, FALSE, FALSE, [i \in 1..n |-> n + 1 - i], 0)
+              \* the GOAWAY frame cut into two deliveries
+              \/ \E n \in 0..(IF NReq9 > 2 THEN 2 ELSE NReq9) : \E ks \in [1..n -> Kinds], g \in 0..(n + 1), cut \in {1, 2} :
+                   out' = Scn9x(n, ks, g, FALSE, FALSE, [i \in 1..n |-> i], cut)
               \* three (four) requests released at once, whatever NReq9 is
               \/ \E n \in {3, 4} : \E ks \in [1..n -> PokeKinds], g \in 0..n, rev \in BOOLEAN :
                    /\ n > NReq9 /\ (n = 4 => (\A i \in 1..n : ks[i] = ks[1]) /\ g \in {0, 4})
